@@ -3,10 +3,10 @@
 From Coq Require Import List ZArith NArith Bool Lia.
 From RecordUpdate Require Import RecordSet.
 From PC.Base Require Import Assoc.
-From PC.Sup Require Import Model Monitors Check Tactics Sim ObsFacts Effects RelCore LemC02 RelC02defs RelC02f.
+From PC.Sup Require Import Model Monitors Tactics Sim ObsFacts Effects RelCore LemC02 RelC02defs RelC02f.
 Import ListNotations RecordSetNotations.
 
-(* the window hypothesis of the full theorem: F20/F21 (commit), F37 (sdlag), F25 (dup), F38 (zombie) *)
+(* the window hypothesis of the full theorem: F20/F21 (commit), F37 (sdlag), F25 (dup) *)
 Definition W_C02 (o : obs) : bool := W3 o.
 (* ... and of the theorem about launches, back-off and giving up only: F20/F21, F37 *)
 Definition W_C02_core (o : obs) : bool := W2 o.
@@ -21,13 +21,16 @@ Context (cs : amap pconf).
 Record R2 (s : sys) (o : obs) : Prop := mkR2 {
   r2_rc : Rc cs s o;
   r2_rt : Rt s o;
-  r2_rd : Rd o;
+  r2_ro : Ro o;
+  r2_rg : Rg s;
+  r2_rz : Rz s o;
+  r2_rs : Rs s o;
   r2_p2 : P2all s o
 }.
 
 Lemma R2_init ord : R2 (init cs ord) (obs0 cs).
 Proof.
-  constructor; [apply Rc_init|apply Rt_init|apply Rd_init|].
+  constructor; [apply Rc_init|apply Rt_init|apply Ro_init|apply Rg_init|apply Rz_init|apply Rs_init|].
   intros j x xo H. cbn in H. discriminate.
 Qed.
 
@@ -176,15 +179,19 @@ Qed.
 Lemma R2_step s o te s' : R2 s o -> step s te = Some s' ->
   R2 s' (obs_step cs o te) /\ (mon_C02 cs o te = true \/ W_C02 o = true) /\ (mon_C02_core cs o te = true \/ W_C02_core o = true).
 Proof.
-  destruct te as [th e]. intros [HRc HRt HRd HP] H.
+  destruct te as [th e]. intros [HRc HRt HRo HRg HRz HRs HP] H.
   pose proof (Rc_step cs _ _ _ _ _ HRc H) as HRc'.
   unfold step in H. cbn [fst snd] in H.
   assert (HRc0 : Rc cs (flush th s) o) by (eapply Rc_sys_same; [exact HRc|apply sys_same_flush]).
   pose proof (Rt_flush th _ _ HRt) as HRt0. pose proof (P2all_flush th _ _ HRt HP) as HP0.
+  pose proof (Rg_flush th _ HRg) as HRg0. pose proof (Rz_flush th _ _ HRz) as HRz0. pose proof (Rs_flush th _ _ HRs) as HRs0.
   split; [constructor|split].
   - exact HRc'.
   - eapply Rt_step_core; eauto.
-  - apply Rd_step; [|exact HRd]. eapply fresh_newinst; eauto.
+  - apply Ro_step; [|exact HRo]. eapply fresh_newinst; eauto.
+  - eapply Rg_step_core; eauto.
+  - eapply Rz_step_core; eauto.
+  - eapply Rs_step_core; eauto.
   - eapply P2all_step_core; eauto.
   - eapply mon_ok; eauto.
   - eapply mon_ok_core; eauto.
